@@ -10,6 +10,8 @@ use crate::refm::crc_x25;
 #[derive(Debug, Clone, PartialEq, Eq, Hash)]
 pub enum RTime {
     SecIndex(u32),
+    /// a variant of the crate's type that this harness does not know (Debug text)
+    Other(String),
 }
 #[derive(Debug, Clone, PartialEq, Eq, Hash)]
 pub enum RValue {
@@ -24,6 +26,7 @@ pub enum RValue {
     U32(u32),
     U64(u64),
     ListTime(RTime),
+    Other(String),
 }
 #[derive(Debug, Clone, PartialEq, Eq, Hash)]
 pub enum RStatus {
@@ -31,6 +34,7 @@ pub enum RStatus {
     S16(u16),
     S32(u32),
     S64(u64),
+    Other(String),
 }
 #[derive(Debug, Clone, PartialEq, Eq, Hash)]
 pub struct REntry {
@@ -44,6 +48,8 @@ pub struct REntry {
 }
 #[derive(Debug, Clone, PartialEq, Eq, Hash)]
 pub enum RBody {
+    /// a message body variant this harness does not know (Debug text)
+    Other(String),
     Open {
         codepage: Option<Vec<u8>>,
         client_id: Option<Vec<u8>>,
@@ -551,7 +557,10 @@ impl<'c> Enc<'c> {
         self.out.extend_from_slice(&v.to_be_bytes()[8 - w..]);
     }
     fn time(&mut self, t: &RTime) {
-        let RTime::SecIndex(v) = t;
+        let v = match t {
+            RTime::SecIndex(v) => v,
+            RTime::Other(_) => unreachable!("the generator only encodes known variants"),
+        };
         if self.choose(2) == 1 {
             // vendor workaround form
             self.out.push(0x65);
@@ -574,6 +583,7 @@ impl<'c> Enc<'c> {
             RStatus::S16(v) => self.uint(*v as u64, 2, 2),
             RStatus::S32(v) => self.uint(*v as u64, 3, 4),
             RStatus::S64(v) => self.uint(*v, 5, 8),
+            RStatus::Other(_) => unreachable!("the generator only encodes known variants"),
         }
     }
     fn value(&mut self, v: &RValue) {
@@ -598,6 +608,7 @@ impl<'c> Enc<'c> {
                 self.uint(1, 1, 1);
                 self.time(t);
             }
+            RValue::Other(_) => unreachable!("the generator only encodes known variants"),
         }
     }
     pub fn entry(&mut self, e: &REntry) {
@@ -659,6 +670,7 @@ impl<'c> Enc<'c> {
                 self.opt_octet(list_sig);
                 self.opt_time(act_gateway_time);
             }
+            RBody::Other(_) => unreachable!("the generator only encodes known variants"),
         }
         let crc = crc_x25(&self.out[start..]).swap_bytes();
         self.uint(crc as u64, 1, 2);
@@ -678,22 +690,31 @@ pub fn encode_file(f: &[RMsg], dev: &[(usize, u8)]) -> (Vec<u8>, Vec<u8>) {
 use sml_rs::parser::common::{ListEntry, ListType, Status, Time, Value};
 use sml_rs::parser::{complete, streaming, ParseError};
 
-fn t(x: &Time) -> RTime {
+// The crate's enums are matched with a catch-all arm: a variant added to them must surface as a
+// content difference (a finding), not as a harness that no longer builds.
+pub fn t(x: &Time) -> RTime {
+    #[allow(unreachable_patterns)]
     match x {
         Time::SecIndex(v) => RTime::SecIndex(*v),
+        other => RTime::Other(format!("{:?}", other)),
     }
 }
 fn ov(x: &Option<&[u8]>) -> Option<Vec<u8>> {
     x.map(|s| s.to_vec())
 }
+#[allow(unreachable_patterns)]
 pub fn conv_entry(e: &ListEntry) -> REntry {
     REntry {
         obj_name: e.obj_name.to_vec(),
-        status: e.status.as_ref().map(|s| match s {
-            Status::Status8(v) => RStatus::S8(*v),
-            Status::Status16(v) => RStatus::S16(*v),
-            Status::Status32(v) => RStatus::S32(*v),
-            Status::Status64(v) => RStatus::S64(*v),
+        status: e.status.as_ref().map(|s| {
+            #[allow(unreachable_patterns)]
+            match s {
+                Status::Status8(v) => RStatus::S8(*v),
+                Status::Status16(v) => RStatus::S16(*v),
+                Status::Status32(v) => RStatus::S32(*v),
+                Status::Status64(v) => RStatus::S64(*v),
+                other => RStatus::Other(format!("{:?}", other)),
+            }
         }),
         val_time: e.val_time.as_ref().map(t),
         unit: e.unit,
@@ -710,10 +731,12 @@ pub fn conv_entry(e: &ListEntry) -> REntry {
             Value::U32(v) => RValue::U32(*v),
             Value::U64(v) => RValue::U64(*v),
             Value::List(ListType::Time(x)) => RValue::ListTime(t(x)),
+            other => RValue::Other(format!("{:?}", other)),
         },
         sig: ov(&e.value_signature),
     }
 }
+#[allow(unreachable_patterns)]
 pub fn from_complete(f: &complete::File) -> RFile {
     f.messages
         .iter()
@@ -740,6 +763,7 @@ pub fn from_complete(f: &complete::File) -> RFile {
                     list_sig: ov(&g.list_signature),
                     act_gateway_time: g.act_gateway_time.as_ref().map(t),
                 },
+                other => RBody::Other(format!("{:?}", other)),
             },
         })
         .collect()
@@ -780,11 +804,13 @@ pub fn run_streaming(x: &[u8]) -> StreamRun {
             }
             Some(Ok(ev)) => {
                 r.items += 1;
+                #[allow(unreachable_patterns)]
                 match ev {
                     streaming::ParseEvent::MessageStart(m) => {
                         if open_list.is_some() {
                             r.notes.push(("C09 MessageStart before the list of the previous message was closed", String::new()));
                         }
+                        #[allow(unreachable_patterns)]
                         let body = match &m.message_body {
                             streaming::MessageBody::OpenResponse(o) => RBody::Open {
                                 codepage: ov(&o.codepage),
@@ -807,6 +833,7 @@ pub fn run_streaming(x: &[u8]) -> StreamRun {
                                     act_gateway_time: None,
                                 }
                             }
+                            other => RBody::Other(format!("{:?}", other)),
                         };
                         let announced = match &m.message_body {
                             streaming::MessageBody::GetListResponse(g) => Some(g.num_vals as u64),
@@ -836,6 +863,8 @@ pub fn run_streaming(x: &[u8]) -> StreamRun {
                         }
                         _ => r.notes.push(("C09 list end event outside a list response", String::new())),
                     },
+                    #[allow(unreachable_patterns)]
+                    other => r.notes.push(("C09 streaming parser emits an event kind the allocating parser has no counterpart for", format!("{:?}", other))),
                 }
             }
         }
